@@ -61,7 +61,10 @@ def address_alphabet(w, far):
             11,           # the halt op's jump word
             far + 3,      # last data word of the far segment
             far + 700,    # never-written word of the lazily-zero tail
-            far + 4 + 1199]  # last word of the far segment
+            far + 4 + 1199,  # last word of the far segment
+            1, 7,         # the jump word of the output op that is executing while the device is called (IO call 0 / 1)
+            0, 6,         # its flip word
+            2]            # the IO cell the op is flipping
 
 
 def value_alphabet(w):
@@ -80,11 +83,11 @@ def device_ops_alphabet(w, far, tier):
     for a in addrs:
         for v in vals:
             ops.append(('ww', a, v))
-    opaddrs = [4 * w, 8 * w, far * w, (far + 2) * w, (far + 698) * w]
+    opaddrs = [4 * w, 8 * w, far * w, (far + 2) * w, 0, 6 * w, (far + 698) * w]
     if w >= 16:
         for a in opaddrs:
             ops.append(('rb', a))
-        for a in opaddrs[:4]:
+        for a in opaddrs[:6]:
             for v in (0, 0xFF, 0x1A5):
                 ops.append(('wb', a, v))
     return ops
